@@ -87,6 +87,9 @@ type ciEnv struct {
 	known  map[string]int
 	ctx    context.Context
 	cancel context.CancelFunc
+	// ops executed on this service so far (replayed into the mirror process when it takes this case over: see
+	// cimirror.go)
+	hist []string
 }
 
 func newCiEnv() *ciEnv {
@@ -262,12 +265,13 @@ func keyTok(k string) string { return hx([]byte(k)) }
 
 func isHexAddr(s string) bool { _, err := boson.ParseHexAddress(s); return err == nil }
 
-func (rn *runner) stepCi(ctx *core.Ctx, op []string) string {
+func (rn *runner) stepCi(ctx octx, op []string) string {
 	if rn.ci == nil {
 		rn.ci = newCiEnv()
 	}
 	e := rn.ci
 	bg := context.Background()
+	line := strings.Join(op, " ")
 	switch {
 	case op[0] == "ci.file" && len(op) == 3:
 		// set-up: the node holds a file `root` with n data chunks and serves it
@@ -283,6 +287,9 @@ func (rn *runner) stepCi(ctx *core.Ctx, op []string) string {
 		var cids [][]byte
 		for i := 0; i < n; i++ {
 			cids = append(cids, ciCid(root, i))
+		}
+		if !e.shadow(ctx, line, false, "chunkinfo-setup-file") {
+			return "panic"
 		}
 		e.trav.mu.Lock()
 		e.trav.files[root.String()] = cids
@@ -314,6 +321,9 @@ func (rn *runner) stepCi(ctx *core.Ctx, op []string) string {
 			overlays = append(overlays, boson.NewAddress(b))
 		}
 		root := boson.NewAddress(rb)
+		if !e.shadow(ctx, line, false, "chunkinfo-setup-find") {
+			return "panic"
+		}
 		e.st.setReply(nil)
 		// FindChunkInfo keeps waiting for the first ChunkInfoResp of this root (as the download path does); it
 		// is released when the case ends.  (Calling it with a cancelled context instead leaves its 1-slot
@@ -348,6 +358,9 @@ func (rn *runner) stepCi(ctx *core.Ctx, op []string) string {
 		} else {
 			ctx.Annotate("R", hx(req.RootCid), hx(req.Target), hx(req.Req), core.B(boson.NewAddress(req.Target).Equal(e.self)))
 		}
+		if !e.shadow(ctx, line, false, "chunkinfo-req") {
+			return "panic"
+		}
 		e.st.setReply(nil)
 		o := run(func() error { return specs[0].Handler(bg, peer, newStream(stream)) })
 		report(ctx, o, "chunkinfo-req", "chunkinfo.handlerChunkInfoReq")
@@ -355,13 +368,15 @@ func (rn *runner) stepCi(ctx *core.Ctx, op []string) string {
 	case op[0] == "ci.resp" && len(op) == 3:
 		var resp cipb.ChunkInfoResp
 		shape := "other"
-		var root boson.Address
+		var root, target boson.Address
+		risky := false
 		if ok, _ := fr.next(&resp); !ok {
 			ctx.Annotate("X")
 		} else {
 			root = boson.NewAddress(resp.RootCid)
+			target = boson.NewAddress(resp.Target)
 			t := []string{"P", hx(resp.RootCid), hx(resp.Target), hx(resp.Req), core.B(boson.NewAddress(resp.Req).Equal(e.self)),
-				keyTok(boson.NewAddress(resp.Target).String()), itoa(int64(len(resp.Presence)))}
+				keyTok(target.String()), itoa(int64(len(resp.Presence)))}
 			for _, k := range sortedKeys(resp.Presence) {
 				t = append(t, keyTok(k), hx(resp.Presence[k]), core.B(isHexAddr(k)), core.B(isHexAddr(k) && boson.MustParseHexAddress(k).Equal(e.self)))
 				if !isHexAddr(k) {
@@ -369,11 +384,35 @@ func (rn *runner) stepCi(ctx *core.Ctx, op []string) string {
 				}
 			}
 			ctx.Annotate(t...)
-			if v, ok := resp.Presence[boson.NewAddress(resp.Target).String()]; ok && v != nil && shape == "other" {
-				if n := e.known[root.String()]; n > 0 && len(v)*8 < n {
-					shape = "short-presence"
+			// does the message reach updateChunkInfo (in the discover WORKER goroutine, where a panic cannot be
+			// recovered), and in which branch: first vector for (root, target) or merge into the stored one?
+			if v, ok := resp.Presence[target.String()]; ok && v != nil && boson.NewAddress(resp.Req).Equal(e.self) {
+				if _, sb, stored := e.storedVec(root, target); stored {
+					risky = true
+					rel := "equal"
+					switch {
+					case len(v) == 0:
+						rel = "empty"
+					case len(v) < len(sb):
+						rel = "shorter"
+					case len(v) > len(sb):
+						rel = "longer"
+					}
+					if shape == "other" {
+						shape = "stored-presence-" + rel
+					}
+				} else if n := e.known[root.String()]; n > 0 && len(v)*8 < n {
+					risky = true
+					if shape == "other" {
+						shape = "short-presence"
+					}
 				}
 			}
+		}
+		// a message that reaches the worker goroutine in one of the branches above is first run in the mirror
+		// process (the same ops on the same real service): if that process dies, the real handler is not called
+		if !e.shadow(ctx, line, risky, "chunkinfo-"+shape+"-worker-goroutine") {
+			return "panic"
 		}
 		e.st.setReply(nil)
 		o := run(func() error { return specs[1].Handler(bg, peer, newStream(stream)) })
@@ -384,7 +423,15 @@ func (rn *runner) stepCi(ctx *core.Ctx, op []string) string {
 		time.Sleep(2 * time.Millisecond)
 		l := run(func() error { e.laterUse(root, peer.Address); return nil })
 		report(ctx, l, "chunkinfo-"+shape+"-later-use", "GetChunkInfo / overlays / restart after a ChunkInfoResp")
-		return o.class + " " + l.class
+		if l.class != "ok" {
+			return o.class + " " + l.class
+		}
+		// what is stored for (root, target) now: `v<Len>:<bytes>` or `v-` (the model prints the same)
+		vt := "v-"
+		if n, b, stored := e.storedVec(root, target); stored {
+			vt = "v" + itoa(int64(n)) + ":" + hx(b)
+		}
+		return o.class + " " + l.class + " " + vt
 	case op[0] == "ci.pyramid" && len(op) == 4:
 		reply, err := core.UnHex(op[3])
 		if err != nil {
@@ -400,7 +447,7 @@ func (rn *runner) stepCi(ctx *core.Ctx, op []string) string {
 			local := boson.NewAddress(req.Target).Equal(e.self) || known
 			t := []string{"Y", hx(req.RootCid), hx(req.Target), core.B(boson.NewAddress(req.Target).Equal(e.self))}
 			if !local {
-				if pyr, term := pyramidOf(reply); term && needsProbe(pyr) {
+				if pyr, term := pyramidOf(reply); term && needsProbe(pyr) && !inMirror {
 					if ok, detail := probePyramid(root, reply); !ok {
 						// the real handler would take the whole process down: report, and answer what a rejecting traversal gives
 						ctx.Fail("chunkinfo-pyramid-joiner-goroutine-panic", "traversal.GetChunkHashes on this peer pyramid kills the process: %s", detail)
@@ -412,6 +459,9 @@ func (rn *runner) stepCi(ctx *core.Ctx, op []string) string {
 				t = append(t, e.annPyramidReply(ctx, root, reply)...)
 			}
 			ctx.Annotate(t...)
+		}
+		if !e.shadow(ctx, line, false, "chunkinfo-pyramid") {
+			return "panic"
 		}
 		e.st.setReply(reply)
 		o := run(func() error { return specs[2].Handler(bg, peer, newStream(stream)) })
@@ -443,7 +493,7 @@ func (t *travFake) count(root boson.Address) (int, bool) {
 }
 
 // annPyramidReply: `G <nframes> <end: K ok-frame | X bad/EOF> <T0|T1 nchunks>`
-func (e *ciEnv) annPyramidReply(ctx *core.Ctx, root boson.Address, reply []byte) []string {
+func (e *ciEnv) annPyramidReply(ctx octx, root boson.Address, reply []byte) []string {
 	fr := newFrameReader(reply)
 	pyr := map[string][]byte{}
 	n := 0
@@ -478,6 +528,22 @@ func (e *ciEnv) annPyramidReply(ctx *core.Ctx, root boson.Address, reply []byte)
 		return []string{"G", itoa(int64(n)), "K", "T0"}
 	}
 	return []string{"G", itoa(int64(n)), "K", "T1", itoa(int64(cnt))}
+}
+
+// storedVec: the presence vector the node holds for (root, overlay), as the API reports it
+func (e *ciEnv) storedVec(root, overlay boson.Address) (n int, b []byte, ok bool) {
+	o := run(func() error {
+		for _, x := range e.ci.GetChunkInfoDiscoverOverlays(root) {
+			if x.Overlay == overlay.String() {
+				n, b, ok = x.Bit.Len, append([]byte(nil), x.Bit.B...), true
+			}
+		}
+		return nil
+	})
+	if o.class != "ok" {
+		return 0, nil, false
+	}
+	return n, b, ok
 }
 
 // laterUse reads the state a message may have created, the way the retrieval path, the API and a restart do.
